@@ -25,7 +25,7 @@ type envPoint struct {
 	pos    int
 	nopts  int
 	chosen int
-	n      int   // answer given
+	n      int // answer given
 	err    error
 }
 
